@@ -152,7 +152,7 @@ theorem cloneTypes_attrs (cfg : Cfg) (hd : cfg.deepClone = true) : ∀ (l : List
           rw [ht0] at ht; cases ht
           have hcopy : ∃ t1, (cloneType cfg h t0).1.readType (cloneType cfg h t0).2 = some t1 ∧ TAttr t0 t1 := by
             simp only [cloneType, hd, if_true]
-            split <;> exact ⟨_, readType_alloc_new _ _, ⟨rfl, rfl, rfl, rfl, rfl, rfl, rfl⟩⟩
+            split <;> exact ⟨_, readType_alloc_new _ _, ⟨rfl, rfl, rfl, rfl, rfl, rfl, rfl, rfl⟩⟩
           obtain ⟨t1, ht1, hat1⟩ := hcopy
           obtain ⟨t', ht', hat'⟩ := readType_keep_attrs strest _ t1 ht1
           exact ⟨t', ht', hat1.trans hat'⟩
